@@ -115,8 +115,12 @@ def drive(mod, tier):
     try:
         det = determinism_check(mod, seed, mod.DET_RUNS)
         if det["mismatches"]:
-            print(f"HARNESS-ERROR property={prop} determinism self-test failed: {det}")
-            return core.EXIT_HARNESS
+            if getattr(mod, "DET_STRICT", True):
+                print(f"HARNESS-ERROR property={prop} determinism self-test failed: {det}")
+                return core.EXIT_HARNESS
+            # C16: irreproducible library results are the very thing the property forbids; go on, and let the
+            # batch show whether a violation explains the mismatch (if none does, this is a harness error)
+            print(f"NOTE property={prop} determinism self-test: {det['mismatches']} of {det['runs_compared']} runs differ between two processes")
         if tier == "quick":
             total = core.env_int("VERIF_RUNS", mod.QUICK_RUNS)
             chunks = [(seed, lo, min(lo + chunk, total), 1 if lo == 0 else 0) for lo in range(0, total, chunk)]
@@ -219,5 +223,8 @@ def drive(mod, tier):
         # confirmed, replayable violations stand even if some other fingerprint could not be replayed
         return core.EXIT_VIOLATION
     if harness_err:
+        return core.EXIT_HARNESS
+    if det and det.get("mismatches"):
+        print(f"HARNESS-ERROR property={prop} determinism self-test failed and no violation explains it: {det}")
         return core.EXIT_HARNESS
     return core.EXIT_OK
